@@ -18,8 +18,8 @@ def vec(name, unit):
 
 def run(chk):
     chk.trust('scipp model: vector arithmetic, norm, atan2 (value = real atan2), in-place operators and out= write semantics')
-    chk.trust('textbook facts about atan2/cos instantiated per occurrence (vf/kit.py atan2_axioms, cos_injective); '
-              'Lean/Mathlib closure planned, until then assumed')
+    chk.textbook('textbook facts about atan2/cos/sqrt/pi instantiated per occurrence (vf/kit.py atan2_axioms, cos_injective)',
+                 ['atan2_range', 'atan2_first_quadrant', 'atan2_upper', 'atan2_lower', 'atan2_pos_x_axis', 'atan2_neg_x_axis', 'atan2_pos_y_axis', 'atan2_cos', 'atan2_sin', 'atan2_cos_two', 'sqrt_facts', 'pi_bounds', 'cos_inj_on', 'cos_bounds'])
     chk.trust('z3 / cvc5')
     chk.assume('floats are reals in the geometric obligations; the 1e-15 rad accuracy clause is decided by (i) the structural '
                'obligation that the result is 2*atan2(|u-v|, |u+v|) on normalised beams (Kahan) and (ii) a bounded comparison '
